@@ -47,7 +47,7 @@ def main():
         return 0
     mode = {"C12": "law", "C13": "total"}[prop]
     seed = int(os.environ.get("VERIF_SEED", "0") or 0)
-    runs = runs or int(os.environ.get("VERIF_FUZZ_RUNS", "250000"))
+    runs = runs or int(os.environ.get("VERIF_FUZZ_RUNS", "100000"))
     t0 = time.time()
     env = dict(os.environ, CARGO_NET_OFFLINE="true")
     log = f"{VERIF}/target/build-fuzz.log"
@@ -78,9 +78,11 @@ def main():
                 if os.path.getsize(f"{sd}/{fn}") <= 16384:
                     shutil.copy(f"{sd}/{fn}", f"{d}/corpus/{fn}")
         max_len = 8192 if name in ("wal.segment", "wsc.file") else 4096
-        e = dict(env, VERIF_FUZZ_CODEC=name, VERIF_FUZZ_MODE=mode, VERIF_FUZZ_STATS=f"{d}/stats", RUST_BACKTRACE="0")
+        # the host boundary targets build a kernel per input: a fifth of the runs
+        n_runs = max(1000, runs // 5) if name.startswith("host.") else runs
+        e = dict(env, VERIF_FUZZ_CODEC=name, VERIF_FUZZ_MODE=mode, VERIF_FUZZ_STATS=f"{d}/stats", RUST_BACKTRACE="0", ASAN_OPTIONS="quarantine_size_mb=32:detect_leaks=0")
         # libFuzzer: -seed=0 means "random"; remap
-        cmd = [BIN, f"{d}/corpus", f"-runs={runs}", f"-seed={seed * 2 + 1 + (0 if start == 'seeded' else 1000003)}", f"-max_len={max_len}", "-len_control=0", "-timeout=60", "-report_slow_units=50", "-rss_limit_mb=4096", f"-artifact_prefix={d}/art/", "-print_final_stats=1", "-verbosity=1"]
+        cmd = [BIN, f"{d}/corpus", f"-runs={n_runs}", f"-seed={seed * 2 + 1 + (0 if start == 'seeded' else 1000003)}", f"-max_len={max_len}", "-len_control=0", "-timeout=60", "-report_slow_units=50", "-rss_limit_mb=8192", f"-artifact_prefix={d}/art/", "-print_final_stats=1", "-verbosity=1"]
         if mode == "total":
             cmd.append("-malloc_limit_mb=64")
         with open(f"{d}/log", "w") as f:
@@ -128,7 +130,7 @@ def main():
         known_findings_matched={},
         wall_s=round(time.time() - t0, 2),
         classes={f"{r['codec']}/{r['start']}": dict(execs=r["execs"], accepted=r["accepted"], distinct_accepted=r["distinct_accepted"], cov_edges=r["cov"], features=r["features"], corpus=r["corpus"]) for r in results},
-        rule=f"libFuzzer (cargo-fuzz, ASan, debug assertions on) in-process target codec_any, mode={mode}: per codec one campaign from the encoder-produced seeds and one from an empty corpus, -runs={runs} each, -len_control=0, max_len 4096 (8192 for wal.segment, wsc.file). Non-trivial = input the decoder accepted, distinct by bytes within a campaign.",
+        rule=f"libFuzzer (cargo-fuzz, ASan, debug assertions on) in-process target codec_any, mode={mode}: per codec one campaign from the encoder-produced seeds and one from an empty corpus, -runs={runs} each (a fifth for host.* targets), -len_control=0, max_len 4096 (8192 for wal.segment, wsc.file). Non-trivial = input the decoder accepted, distinct by bytes within a campaign.",
     )
     merge_evidence(prop, sub, len(violations), inconclusive)
     print(f"fuzz[{prop}/{mode}]: {len(results)} campaigns, {sub['evaluations']} executions, {sub['distinct_nontrivial']} distinct accepted inputs, {len(violations)} violations, {len(inconclusive)} inconclusive, {sub['wall_s']} s")
